@@ -14,6 +14,8 @@
 
 #include <cstddef>
 #include <cstdio>
+#include <cstdlib>
+#include <new>
 #include <map>
 #include <string>
 #include <vector>
@@ -26,6 +28,7 @@ namespace pl
     {
         std::map<const void*, int> live;   // address -> tag
         std::map<const void*, const void*> cell_at;   // address -> heap cell of the object constructed there (address sensitivity)
+        std::map<const void*, int> own_blocks;        // memory handed out by a payload's class-specific operator new (OwnNew) -> tag
         std::vector<std::string> errors;
         long long constructed = 0, destroyed = 0;
         int countdown = 0;   // 0 = no fault pending
@@ -34,7 +37,7 @@ namespace pl
         static Reg& get() { static Reg r; return r; }
         void reset()
         {
-            live.clear(); cell_at.clear(); errors.clear(); constructed = destroyed = 0; countdown = 0; points = 0; armed = false;
+            live.clear(); cell_at.clear(); own_blocks.clear(); errors.clear(); constructed = destroyed = 0; countdown = 0; points = 0; armed = false;
         }
         void err(const std::string& s) { if (errors.size() < 8) errors.push_back(s); }
     };
@@ -186,6 +189,41 @@ namespace pl
         friend bool operator>(const TrivAssign& a, const TrivAssign& b) { return a.value() > b.value(); }
         friend bool operator<=(const TrivAssign& a, const TrivAssign& b) { return a.value() <= b.value(); }
         friend bool operator>=(const TrivAssign& a, const TrivAssign& b) { return a.value() >= b.value(); }
+    };
+
+
+    // A payload with CLASS-SPECIFIC allocation functions (pool / aligned allocators, e.g. EIGEN_MAKE_ALIGNED_OPERATOR_NEW): a
+    // container that creates such an object with a new-expression must release it with the matching delete-expression, so that
+    // T::operator new and T::operator delete always see each other's blocks. The registry records every block T::operator new hands
+    // out; T::operator delete on a foreign block, and a block never given back, are lifetime violations. The placement forms are
+    // declared too (a class-scope operator new hides the global placement form), so in-place construction stays well-formed.
+    template <class Base>
+    struct OwnNew : Base
+    {
+        using Base::Base;
+        static void* operator new(std::size_t n)
+        {
+            void* p = std::malloc(n ? n : 1);
+            if (!p) throw std::bad_alloc();
+            Reg::get().own_blocks[p] = Base::tag;
+            return p;
+        }
+        static void operator delete(void* p) noexcept
+        {
+            if (!p) return;
+            Reg& r = Reg::get();
+            auto it = r.own_blocks.find(p);
+            if (it == r.own_blocks.end())
+            {
+                r.err("T::operator delete was handed memory that T::operator new did not allocate (the object was created and released with mismatching allocation functions), type tag " + std::to_string(Base::tag));
+                ::operator delete(p);
+                return;
+            }
+            r.own_blocks.erase(it);
+            std::free(p);
+        }
+        static void* operator new(std::size_t, void* where) noexcept { return where; }
+        static void operator delete(void*, void*) noexcept {}
     };
 
     // arms the throw points for the duration of one implementation call
